@@ -439,7 +439,12 @@ var oracleC19 = oracle{post: func(c *checker) {
 					}
 				case splits[hdr.RH(h)]:
 				case n != nil:
-					// accepted header not on the best chain: base of a tracked side branch
+					// accepted header not on the best chain: it has to be the base (lowest retained
+					// header) of one of the branches the repository tracks at this moment
+					if !bases[h] {
+						c.fail("locator-orphaned-hash", opClass(c.st), fmt.Sprintf("GetLocatorHashes(%d)[%d] = %s is an accepted header that is neither on the best chain (tip %s) nor the base of a tracked side branch", max, i, n.Label, t.Label))
+						return nil
+					}
 				default:
 					c.fail("locator-foreign-hash", opClass(c.st), fmt.Sprintf("GetLocatorHashes(%d)[%d] = %s is no best-chain header, split point or side-branch base", max, i, h))
 					return nil
